@@ -316,6 +316,7 @@ pub struct PCase {
     pub stat_fault: Option<usize>,
     pub grow_plain: Option<usize>,
     pub direct: Option<usize>,
+    pub hardlink: bool,
 }
 
 #[derive(Default)]
@@ -452,8 +453,16 @@ pub fn run_one(case: &PCase, path: &str, prefix: &[u8]) -> (ExecResult, Vec<Judg
         }
     }
     let n = case.openers;
+    let link = format!("{}.link", path);
+    let _ = std::fs::remove_file(&link);
+    if case.hardlink && case.file_exists {
+        if let Err(e) = std::fs::hard_link(path, &link) {
+            return fail(format!("cannot create the hard link: {}", e));
+        }
+    }
     let mut procs: Vec<Proc> = vec![];
     for i in 0..n {
+        let path = if case.hardlink && i > 0 { link.as_str() } else { path };
         match spawn_opener(path, i, n, case.init_fault == Some(i), case.second_fd, case.sync_fault_grow == Some(i), case.stat_fault == Some(i), case.grow_plain == Some(i), case.direct == Some(i)) {
             Ok(p) => procs.push(p),
             Err(e) => {
@@ -615,7 +624,7 @@ pub fn run_one(case: &PCase, path: &str, prefix: &[u8]) -> (ExecResult, Vec<Judg
 pub fn debug_run(args: &[String]) {
     let scratch = crate::report::scratch_dir();
     let path = format!("{}/c13p-debug.db", scratch);
-    let case = PCase { openers: args[0].parse().unwrap(), file_exists: args[1] == "1", init_fault: None, second_fd: args.get(3).map(|s| s == "1").unwrap_or(false), sync_fault_grow: None, stat_fault: None, grow_plain: None, direct: None };
+    let case = PCase { openers: args[0].parse().unwrap(), file_exists: args[1] == "1", init_fault: None, second_fd: args.get(3).map(|s| s == "1").unwrap_or(false), sync_fault_grow: None, stat_fault: None, grow_plain: None, direct: None, hardlink: false };
     let prefix: Vec<u8> = args.get(2).map(|s| s.split(',').filter(|x| !x.is_empty()).map(|x| x.parse().unwrap()).collect()).unwrap_or_default();
     let t0 = std::time::Instant::now();
     let (res, js, outcome) = run_one(&case, &path, &prefix);
